@@ -167,7 +167,11 @@ def run(ck):
                 continue
             trace.append(["Fit", describe(s, v)])
             g0 = dm.global_state()
-            got = attempt(s, v, {"history": trace})
+            dm.GAP[0] = i + 1          # the caller uses the global generator between construction and fit
+            try:
+                got = attempt(s, v, {"history": trace})
+            finally:
+                dm.GAP[0] = 0
             g1 = dm.global_state()
             fits += 1
             k, kc = dm.own_key(s, v), dm.canonical_key(s, v)
